@@ -42,6 +42,16 @@ def main(argv=None):
                 print('replay: finding %s no longer reported' % only)
         return finish(report, cmd)
     except AnalysisError as e:
+        if report.violations:
+            # rules that ran to completion already found violations; those
+            # findings stand on their own.  The part of the analysis that
+            # could not follow the tree is reported alongside.
+            print('ANALYSIS-INCOMPLETE property=%s %s (findings of the '
+                  'completed rules follow)' % (pid, e))
+            if only is not None:
+                report.violations = [f for f in report.violations
+                                     if f.key == only]
+            return finish(report, cmd) or 2
         print('ANALYSIS-ERROR property=%s %s' % (pid, e))
         return 2
     except Exception:
